@@ -99,12 +99,12 @@ func (t *ImmutableTree) VerifyNonMembership(proof *ics23.CommitmentProof, key []
 // existence proof, if that's what it is.
 func (t *ImmutableTree) createExistenceProof(key []byte) (*ics23.ExistenceProof, error) {
 	t.Hash()
-	path, node, err := t.root.PathToLeaf(t, key, t.version+1)
+	path, node, err := t.root.PathToLeaf(t, key, t.nextVersion())
 	if node == nil {
 		// the path could not be built (a node could not be loaded)
 		return nil, err
 	}
-	nodeVersion := t.version + 1
+	nodeVersion := t.nextVersion()
 	if node.nodeKey != nil {
 		nodeVersion = node.nodeKey.version
 	}
